@@ -315,6 +315,33 @@ fn history_alphabet(thorough: bool) -> Vec<Step> {
     out
 }
 
+/// What the model says one step must yield, whatever happened before: (outcome label, provider calls).
+fn expected_step(step: &Step) -> (String, usize) {
+    let mut v = step.dims.vector();
+    if step.service_override.is_some() {
+        v.set(Stage::Scope, 2); // credential scoped to another service than the one validated for
+    }
+    let run = prec::run(step.dims.carrier(), &v);
+    if !run.provider_consulted {
+        return (format!("Err({})", run.error.map(|k| k.name()).unwrap_or("?")), 0);
+    }
+    let b = &step.behaviour;
+    if let Some(e) = &b.ready_err {
+        return (format!("Err({})", expected_err(e).0.name()), 0);
+    }
+    match &b.answer {
+        Answer::Err(e) => (format!("Err({})", expected_err(e).0.name()), 1),
+        Answer::WrongKey => ("Err(SignatureDoesNotMatch)".into(), 1),
+        Answer::Correct => {
+            if step.dims.sig == 1 {
+                ("Err(SignatureDoesNotMatch)".into(), 1)
+            } else {
+                ("Ok".into(), 1)
+            }
+        }
+    }
+}
+
 fn step_outcome(step: &Step, provider: &mut Provider) -> (String, usize) {
     // re-script the shared provider for this validation
     {
@@ -355,14 +382,9 @@ pub fn run(ctx: &Ctx) -> Report {
     let alphabet = history_alphabet(thorough);
     let k = alphabet.len() as u64;
     let depth: u32 = if thorough { 4 } else { 3 };
-    // fresh-state outcome of every symbol (own provider instance)
-    let fresh: Vec<(String, usize)> = alphabet
-        .iter()
-        .map(|s| {
-            let mut p = provider_for(&s.behaviour);
-            step_outcome(s, &mut p)
-        })
-        .collect();
+    // what each symbol must yield on its own, by the model (not by running the implementation "first": a
+    // remembered value would already be there for the second symbol computed in this process)
+    let fresh: Vec<(String, usize)> = alphabet.iter().map(expected_step).collect();
     let nh = enumr::seq_count(k, depth);
     let st_h = par_sweep(nh, |i, st| {
         let seq = enumr::seq_decode(i, k, depth);
@@ -383,7 +405,7 @@ pub fn run(ctx: &Ctx) -> Report {
                     index: total + i,
                     what: "outcome-depends-on-earlier-validations-on-the-same-provider".into(),
                     case: json!({"history": seq.iter().map(|x| format!("{}/{:?}", alphabet[*x as usize].name, alphabet[*x as usize].behaviour.answer)).collect::<Vec<_>>(), "position": pos}),
-                    expected: format!("{:?} (same validation on a fresh provider)", fresh[*s as usize]),
+                    expected: format!("{:?} (what the model says for this step alone)", fresh[*s as usize]),
                     observed: format!("{:?}", got),
                     known: None,
                 });
@@ -399,7 +421,7 @@ pub fn run(ctx: &Ctx) -> Report {
     Report {
         stats: st,
         rule: format!(
-            "(1) {} request classes (one per stage of the documented order on each carrier, plus valid and wrong signature) x {} provider behaviours: poll_ready answers Pending k times (k <= {p}) then Ready or one of 16 errors (13 SignatureError shapes, io::Error, String, private type); the call's future is Pending j times (j <= {p}) then the correct key, a wrong key or one of the 16 errors. Invariants on every execution: call only after Ready, at most once; requests failing an earlier rule never touch the provider and their error does not depend on it; a SignatureError from the provider comes back with the same kind, code, status and message, any other error as InternalServiceError/500; no provider error or wrong key ends in Ok; the validation future is polled at least 1+k+j times (a Pending is never taken as an answer). (2) every sequence of 1..{} validations over {} (request, behaviour) symbols on ONE provider instance (key rotation correct->wrong->correct, errors, delays): each step's outcome equals the outcome of the same step on a fresh provider. states = distinct (class, outcome, provider log length) and distinct history outcome vectors",
+            "(1) {} request classes (one per stage of the documented order on each carrier, plus valid and wrong signature) x {} provider behaviours: poll_ready answers Pending k times (k <= {p}) then Ready or one of 16 errors (13 SignatureError shapes, io::Error, String, private type); the call's future is Pending j times (j <= {p}) then the correct key, a wrong key or one of the 16 errors. Invariants on every execution: call only after Ready, at most once; requests failing an earlier rule never touch the provider and their error does not depend on it; a SignatureError from the provider comes back with the same kind, code, status and message, any other error as InternalServiceError/500; no provider error or wrong key ends in Ok; the validation future is polled at least 1+k+j times (a Pending is never taken as an answer). (2) every sequence of 1..{} validations over {} (request, behaviour) symbols on ONE provider instance (key rotation correct->wrong->correct, errors, delays): each step's outcome and provider-call count equal what the model says for that step alone (incl. a valid request presented to a validation configured for another service right after it was accepted for its own). states = distinct (class, outcome, provider log length) and distinct history outcome vectors",
             classes.len(), nb, depth, k, p = max_pending
         ),
         bounds: json!({"max_pending": max_pending, "history_depth": depth, "history_alphabet": k, "executions": total, "histories": nh}),
